@@ -794,6 +794,22 @@ fn context_case(ctx: &mut Ctx, t: &mut Tape) {
     }
     texts.push(vec!['2']);
     texts.push(vec!['3']);
+    // Rules with one and the same pattern are ONE token for the generator (extract_tokens de-duplicates them); its place
+    // in the rule order is that of its first occurrence in the grammar.
+    let in_grammar = |k: usize| subsets.iter().any(|sub| sub.contains(&k));
+    let rendered: Vec<String> = toks
+        .iter()
+        .map(|x| match &x.def {
+            TokDef::Str(v) => format!("'{v}"),
+            TokDef::Pat(r) => {
+                let mut p = String::from("/");
+                r.render(&mut p, true);
+                p
+            }
+        })
+        .collect();
+    let rank: Vec<usize> = (0..toks.len()).map(|k| (0..=k).find(|&j| in_grammar(j) && rendered[j] == rendered[k]).unwrap_or(k)).collect();
+    ctx.label_if((0..toks.len()).any(|k| in_grammar(k) && rank[k] != k), "contexts:duplicate_pattern");
     let mut shadowing = false;
     for (i, sub) in subsets.iter().enumerate() {
         for s in &texts {
@@ -812,7 +828,7 @@ fn context_case(ctx: &mut Ctx, t: &mut Tape) {
                 if !sub.contains(&k) {
                     continue;
                 }
-                let key = |k: usize| (matches!(toks[k].def, TokDef::Str(_)), -(k as i64));
+                let key = |k: usize| (matches!(toks[k].def, TokDef::Str(_)), -(rank[k] as i64));
                 if best.map(|b| key(k) > key(b)).unwrap_or(true) {
                     best = Some(k);
                 }
